@@ -24,7 +24,10 @@ ASSUMPTIONS = [
     'post_space)',
 ]
 NSHARDS = 16
-ALPHAS = {'SIG': SIG, 'EVERY': SIG_SMALL + EVERYTYPE_TOKENS, 'SMALL': SIG_SMALL}
+from ..alphabets import LEGACY       # noqa: E402
+# whitespace-like characters (\r, form feed, NBSP, U+2028, several newlines in a row) and unusual
+# \begin / \end spellings
+ALPHAS = {'SIG': SIG, 'EVERY': SIG_SMALL + EVERYTYPE_TOKENS, 'SMALL': SIG_SMALL, 'LEGACY': LEGACY}
 
 BASE_CONFIGS = [
     {},
@@ -74,10 +77,12 @@ def plan(tier, seed):
         L, nrand = 3, 1600
         shards = [('soup', 'SIG', L, k, None) for k in range(NSHARDS)]
         shards += [('soup', 'EVERY', 2, k, None) for k in range(NSHARDS)]
+        shards += [('soup', 'LEGACY', 3, k, 'base') for k in range(NSHARDS)]
     else:
         L, nrand = 3, 32000
         shards = [('soup', 'SIG', L, k, None) for k in range(NSHARDS)]
         shards += [('soup', 'EVERY', 3, k, None) for k in range(NSHARDS)]
+        shards += [('soup', 'LEGACY', 4, k, 'base') for k in range(NSHARDS)]
         shards += [('soup', 'SMALL', 4, k, 'base') for k in range(NSHARDS)]
     shards += [('rand', nrand // NSHARDS, seed * 1000 + k) for k in range(NSHARDS)]
     return {'shards': [s + (tier,) for s in shards],
@@ -452,7 +457,7 @@ def run_shard(shard, res):
     else:
         _, n, seed, _ = shard
         from hypothesis import strategies as st
-        strat = st.tuples(soups.soup_strategy(SIG + ['|', '*', '\t', 'c'], 3, 60),
+        strat = st.tuples(soups.soup_strategy(SIG + ['|', '*', '\t', 'c', '\r', '\r\n', '\x0c', '\u2028'], 3, 60),
                           st.sampled_from(cfgs))
 
         def one(x):
